@@ -352,6 +352,15 @@ func runProperty(w *World, res *checkResult, thorough bool, timeoutMs int) {
 	if p == "C20" {
 		all = append(all, w.locksetObligations()...)
 	}
+	if p == "C12" {
+		// the serialisation of socket writes is part of C12 as well
+		for _, o := range w.locksetObligations() {
+			if strings.Contains(o.Name, "#lock:call ") {
+				o.Tags = append(o.Tags, "C12")
+				all = append(all, o)
+			}
+		}
+	}
 	w.solve(all, timeoutMs, thorough, &res.Stats)
 	// group by name
 	groups := map[string]*oblGroup{}
